@@ -66,6 +66,20 @@ fn leak(grid: Grid) -> &'static Namespace<'static> {
     Box::leak(Box::new(Namespace::make(grid)))
 }
 
+/// give back a namespace made by `leak` once no thread can use it any more
+fn unleak(ns: &'static Namespace<'static>) {
+    unsafe { drop(Box::from_raw(ns as *const Namespace<'static> as *mut Namespace<'static>)) }
+}
+
+/// an owned answer computed on a cold namespace of its own, which is freed afterwards (thousands of rounds over the real
+/// defs would otherwise keep tens of gigabytes of namespaces alive)
+fn cold<R: 'static>(grid: &Grid, f: impl FnOnce(&'static Namespace<'static>) -> R) -> R {
+    let ns = leak(grid.clone());
+    let r = f(ns);
+    unleak(ns);
+    r
+}
+
 fn hook_events_json(evs: Vec<hooks::HookEvent>, queries: &[Vec<Q>]) -> Vec<J> {
     // query begin / end notes carry (thread, index) in key as "t:i"
     evs.into_iter()
@@ -89,11 +103,9 @@ fn hook_events_json(evs: Vec<hooks::HookEvent>, queries: &[Vec<Q>]) -> Vec<J> {
 pub fn round(out: &mut Out, grid: &Grid, queries: Vec<Vec<Q>>, label: &str) {
     out.emit(load_event(grid));
     let ns = leak(grid.clone());
-    let solo_ns = leak(grid.clone());
-    // answers alone, each on its own cold namespace for the first query of every thread, sequentially otherwise
+    // answers alone, each on its own cold namespace
     hooks::set_enabled(false);
-    let solo: Vec<Vec<Vec<String>>> = queries.iter().map(|qs| qs.iter().map(|q| answer(leak(grid.clone()), q)).collect()).collect();
-    let _ = solo_ns;
+    let solo: Vec<Vec<Vec<String>>> = queries.iter().map(|qs| qs.iter().map(|q| cold(grid, |n| answer(n, q))).collect()).collect();
     let _ = hooks::take_events();
     hooks::set_enabled(true);
     let n = queries.len();
@@ -131,6 +143,10 @@ pub fn round(out: &mut Out, grid: &Grid, queries: Vec<Vec<Q>>, label: &str) {
     let evs = hooks::take_events();
     for j in hook_events_json(evs, &queries) {
         out.emit(j);
+    }
+    if done == n {
+        // every thread has sent its last message after its last query: nobody holds `ns` any more
+        unleak(ns);
     }
     out.emit(json!({"op":"ns.round","label":label,"threads":n,"finished":done,"outcome": if done == n { "ok" } else { "timeout" }}));
 }
@@ -242,7 +258,7 @@ pub fn replay(out: &mut Out, vec: &J) -> Result<(), String> {
     hooks::set_enabled(false);
     hooks::set_gate(None);
     hooks::set_forced_shards(None);
-    let solo: Vec<Vec<Vec<String>>> = queries.iter().map(|qs| qs.iter().map(|q| answer(leak(grid.clone()), q)).collect()).collect();
+    let solo: Vec<Vec<Vec<String>>> = queries.iter().map(|qs| qs.iter().map(|q| cold(&grid, |n| answer(n, q))).collect()).collect();
     hooks::set_forced_shards(Some((4, forced_shard)));
     let ns = leak(grid.clone());
     hooks::set_forced_shards(None);
